@@ -272,6 +272,22 @@ def run(chk):
         expect(chk, "R-KO-SIB", c + ".arg[band]", bd["band"], tags_not=["attr:_smooth_fa_freqs", "fft:fft"], kind=K_SCALAR, loc=calls[0].loc)
     else:
         chk.ob("R-KO-SIB", c, "one call of the smoothing function", False, derived="%d" % len(calls), loc=r.fi.loc())
+    # targets handed to the producer: they are the ones smoothed at AND the ones the object reports afterwards (the stored spectrum and
+    # `smooth_fa_frequencies` describe the same targets: the bandwidth measures index one with positions found in the other)
+    r2 = analyse(chk, SIG + ".gen_smooth_fa_spectrum", lambda I, st, fi: dict(smooth_fa_freqs=AV(
+        kind=K_ARRAY, dtype="real", shape=(LinExpr("G"),), sign=S_POS, origin=frozenset(["p:smooth_fa_freqs"]), tags=frozenset(["p:smooth_fa_freqs"]))),
+        self_cls=SIG)
+    calls2 = [e for e in r2.events("call") if e.callee == DIRECT]
+    if len(calls2) == 1 and "smooth_fa_freqs" in r2.fi.params:
+        used = calls2[0].bound["smooth_fa_frequencies"]
+        chk.ob("R-KO-SIB", c + "(smooth_fa_freqs=given).arg[smooth_fa_frequencies]", "the targets handed in are the ones smoothed at",
+               "p:smooth_fa_freqs" in used.tags, derived="tags %s" % sorted(t for t in used.tags if t.startswith(("p:", "attr:"))), loc=calls2[0].loc)
+        fin = r2.final_attr("_smooth_fa_freqs") if hasattr(r2, "final_attr") else None
+        if fin is not None:
+            chk.ob("R-KO-SIB", c + "(smooth_fa_freqs=given){kept}", "the targets handed in are kept as the object's smoothing frequencies (what "
+                   "`smooth_fa_frequencies` reports is what the stored spectrum was smoothed at)", "p:smooth_fa_freqs" in fin.tags,
+                   derived="_smooth_fa_freqs after the call derives from: %s" % sorted(t for t in fin.tags if t.startswith(("p:", "attr:", "default"))),
+                   loc=r2.fi.loc(), inconclusive=("p:smooth_fa_freqs" not in fin.tags and "p:smooth_fa_freqs" not in used.tags))
     v, I, m = read_property(chk, SIG, "smooth_fa_spectrum")
     expect(chk, "R-KO-NORM", "eqsig/single.py:Signal.smooth_fa_spectrum", v, shape=("F",), deg={R: 1}, parity={R: "even"},
            sign="nonneg", loc=m.loc())
